@@ -1,18 +1,547 @@
-//! C15 — (stub, under construction)
+//! C15 — reading is the inverse of writing for every table the library can write.
+//!
+//! Three oracles (see DESIGN §C15):
+//!  1. value -> bytes -> value: random values within format limits, `T::write` into a `WriteBuffer`,
+//!     `ReadScope::read::<T>`, comparison of harness-side fingerprints with the declared
+//!     normalisations applied to the expected side only (rules `rt-*`).
+//!  2. bytes -> value -> bytes -> value -> bytes: every writable table of every fixture font and of
+//!     lightly faulted variants, and generator-made CFF / CFF2 / ItemVariationStore byte strings:
+//!     second and third serialisations identical, re-parse equal to first parse (rules `stab-*`).
+//!  3. overflow refusal: values whose counts / lengths / offsets exceed their field: `Err`, or `Ok`
+//!     with an exact re-parse; anything else is `truncated-write`.
+//!
+//! Helper files: c15_tt.rs (sfnt tables), c15_cff.rs (CFF / CFF2 / DICT / INDEX / IVS),
+//! c15_stab.rs (fixture corpus and stability driver).
 
 use super::Prop;
 use crate::rt::*;
+use allsorts::binary::write::WriteBuffer;
+use allsorts::error::{ParseError, WriteError};
 
-pub struct C15 {}
+#[path = "c15_tt.rs"]
+mod tt;
+#[path = "c15_cff.rs"]
+mod cffm;
+#[path = "c15_stab.rs"]
+mod stab;
+
+// ---------------------------------------------------------------------------------------------
+// Fingerprints: harness-side, field-wise description of a value
+// ---------------------------------------------------------------------------------------------
+
+pub type Fp = Vec<(String, String)>;
+
+macro_rules! fp {
+    ($($k:expr => $v:expr),* $(,)?) => {
+        vec![$(($k.to_string(), format!("{:?}", $v))),*]
+    };
+}
+pub(crate) use fp;
+
+/// Debug rendering of a slice, hashed when long (keeps witnesses readable and comparison cheap).
+pub fn fv<T: std::fmt::Debug>(v: &[T]) -> String {
+    if v.len() <= 48 {
+        format!("{:?}", v)
+    } else {
+        let s = format!("{:?}", v);
+        format!("len={} hash={:016x} head={:?}", v.len(), hash_str(&s), &v[..8])
+    }
+}
+
+pub fn fbytes(v: &[u8]) -> String {
+    if v.len() <= 64 {
+        let mut s = String::with_capacity(v.len() * 2);
+        for b in v {
+            s.push_str(&format!("{:02x}", b));
+        }
+        s
+    } else {
+        format!("len={} hash={:016x}", v.len(), hash_bytes(v))
+    }
+}
+
+/// Name of the first field that differs.
+pub fn fp_diff(a: &Fp, b: &Fp) -> Option<(String, String, String)> {
+    for i in 0..a.len().max(b.len()) {
+        match (a.get(i), b.get(i)) {
+            (Some(x), Some(y)) => {
+                if x != y {
+                    let name = if x.0 == y.0 { x.0.clone() } else { format!("{}/{}", x.0, y.0) };
+                    return Some((name, x.1.clone(), y.1.clone()));
+                }
+            }
+            (Some(x), None) => return Some((format!("{}(missing)", x.0), x.1.clone(), String::new())),
+            (None, Some(y)) => return Some((format!("{}(extra)", y.0), String::new(), y.1.clone())),
+            (None, None) => {}
+        }
+    }
+    None
+}
+
+/// strip indices so that signatures stay stable: `glyph[12].flags` -> `glyph[].flags`
+pub fn sig_field(name: &str) -> String {
+    let mut out = String::new();
+    let mut in_br = false;
+    for c in name.chars() {
+        match c {
+            '[' => {
+                in_br = true;
+                out.push('[');
+            }
+            ']' => {
+                in_br = false;
+                out.push(']');
+            }
+            _ if in_br => {}
+            c => out.push(c),
+        }
+    }
+    out
+}
+
+pub fn fp_json(f: &Fp) -> J {
+    J::O(f
+        .iter()
+        .take(40)
+        .map(|(k, v)| {
+            let mut v = v.clone();
+            if v.len() > 300 {
+                v.truncate(300);
+                v.push_str("...");
+            }
+            (k.clone(), J::S(v))
+        })
+        .collect())
+}
+
+pub fn trunc_hex(b: &[u8]) -> J {
+    if b.len() <= 600 {
+        J::hex(b)
+    } else {
+        J::obj(vec![
+            ("len", J::U(b.len() as u64)),
+            ("head", J::hex(&b[..300])),
+            ("tail", J::hex(&b[b.len() - 100..])),
+        ])
+    }
+}
+
+// ---------------------------------------------------------------------------------------------
+// Guarded write / read
+// ---------------------------------------------------------------------------------------------
+
+pub enum Wr {
+    Panic,
+    Err(WriteError),
+    Ok(Vec<u8>),
+}
+
+pub fn werr(e: &WriteError) -> &'static str {
+    match e {
+        WriteError::BadValue => "BadValue",
+        WriteError::NotImplemented => "NotImplemented",
+        WriteError::PlaceholderMismatch => "PlaceholderMismatch",
+    }
+}
+
+pub fn perr(e: &ParseError) -> String {
+    let s = format!("{:?}", e);
+    // MissingTable(tag) etc: keep the variant only
+    s.split('(').next().unwrap_or("").to_string()
+}
+
+/// Run a writer under the monitors.
+pub fn gwrite(
+    cx: &mut Ctx,
+    what: &str,
+    approx_len: usize,
+    f: impl FnOnce(&mut WriteBuffer) -> Result<(), WriteError>,
+) -> Wr {
+    let r = cx.guard(what, approx_len, || {
+        let mut b = WriteBuffer::new();
+        f(&mut b).map(|()| b.into_inner())
+    });
+    match r {
+        None => Wr::Panic,
+        Some(Err(e)) => Wr::Err(e),
+        Some(Ok(b)) => Wr::Ok(b),
+    }
+}
+
+/// One parse + fingerprint + serialise step of a byte string (used by oracle 2 and as the reading
+/// half of oracle 1).
+pub enum Step {
+    /// panic inside allsorts (already recorded by the guard)
+    Panic,
+    ParseErr(String),
+    Parsed { fp: Fp, out: Wr },
+}
+
+/// Result of the reading half only.
+pub enum Rd {
+    Panic,
+    Err(String),
+    Ok(Fp),
+}
+
+// ---------------------------------------------------------------------------------------------
+// Verdict helpers
+// ---------------------------------------------------------------------------------------------
+
+/// Oracle 1, writing half: the value is within limits, so the writer must produce bytes.
+pub fn expect_written(cx: &mut Ctx, name: &str, w: Wr, witness: &dyn Fn() -> J) -> Option<Vec<u8>> {
+    match w {
+        Wr::Panic => {
+            cx.class(&format!("rt:{}:writer-panic", name));
+            None
+        }
+        Wr::Err(e) => {
+            cx.violation(
+                "rt-write-refused",
+                &format!("{}:{}", name, werr(&e)),
+                J::obj(vec![("structure", J::s(name)), ("error", J::s(werr(&e))), ("value", witness())]),
+            );
+            None
+        }
+        Wr::Ok(b) => Some(b),
+    }
+}
+
+/// Oracle 1, reading half + comparison.
+pub fn expect_same(cx: &mut Ctx, name: &str, expected: &Fp, bytes: &[u8], rd: Rd, witness: &dyn Fn() -> J) -> bool {
+    match rd {
+        Rd::Panic => {
+            cx.class(&format!("rt:{}:reader-panic", name));
+            false
+        }
+        Rd::Err(e) => {
+            cx.violation(
+                "rt-reparse-error",
+                &format!("{}:{}", name, e),
+                J::obj(vec![
+                    ("structure", J::s(name)),
+                    ("error", J::s(e)),
+                    ("written", trunc_hex(bytes)),
+                    ("value", witness()),
+                ]),
+            );
+            false
+        }
+        Rd::Ok(got) => {
+            if let Some((field, exp, obs)) = fp_diff(expected, &got) {
+                cx.violation(
+                    "rt-differs",
+                    &format!("{}:{}", name, sig_field(&field)),
+                    J::obj(vec![
+                        ("structure", J::s(name)),
+                        ("field", J::s(field)),
+                        ("expected", J::s(exp)),
+                        ("observed", J::s(obs)),
+                        ("written", trunc_hex(bytes)),
+                        ("value", witness()),
+                    ]),
+                );
+                false
+            } else {
+                cx.class(&format!("rt:{}", name));
+                cx.nontrivial(mix(hash_bytes(bytes), hash_str(name)));
+                true
+            }
+        }
+    }
+}
+
+/// Oracle 3: `Err`, or `Ok` whose re-parse equals the value.
+pub fn expect_refused_or_exact(
+    cx: &mut Ctx,
+    name: &str,
+    expected: &Fp,
+    w: Wr,
+    reread: &mut dyn FnMut(&mut Ctx, &[u8]) -> Rd,
+    witness: &dyn Fn() -> J,
+) {
+    match w {
+        Wr::Panic => cx.class(&format!("overflow:{}:panic", name)),
+        Wr::Err(_) => cx.class(&format!("overflow:{}:err", name)),
+        Wr::Ok(bytes) => match reread(cx, &bytes) {
+            Rd::Panic => cx.class(&format!("overflow:{}:reader-panic", name)),
+            Rd::Err(e) => cx.violation(
+                "truncated-write",
+                &format!("{}:reparse-{}", name, e),
+                J::obj(vec![
+                    ("structure", J::s(name)),
+                    ("what", J::s("writer returned Ok for an out-of-range value; the bytes do not parse")),
+                    ("error", J::s(e)),
+                    ("written_len", J::U(bytes.len() as u64)),
+                    ("written_head", J::hex(&bytes[..bytes.len().min(64)])),
+                    ("value", witness()),
+                ]),
+            ),
+            Rd::Ok(got) => {
+                if let Some((field, exp, obs)) = fp_diff(expected, &got) {
+                    cx.violation(
+                        "truncated-write",
+                        &format!("{}:{}", name, sig_field(&field)),
+                        J::obj(vec![
+                            ("structure", J::s(name)),
+                            ("what", J::s("writer returned Ok for an out-of-range value; re-parse differs")),
+                            ("field", J::s(field)),
+                            ("expected", J::s(exp)),
+                            ("observed", J::s(obs)),
+                            ("written_len", J::U(bytes.len() as u64)),
+                            ("written_head", J::hex(&bytes[..bytes.len().min(64)])),
+                            ("value", witness()),
+                        ]),
+                    );
+                } else {
+                    cx.class(&format!("overflow:{}:ok-exact", name));
+                    cx.nontrivial(mix(hash_bytes(&bytes), hash_str(name)));
+                }
+            }
+        },
+    }
+}
+
+/// Oracle 2 driver. `pristine`: the input is an unmodified fixture table (or generator output that is
+/// well-formed by construction), so a writer refusal is itself reportable.
+pub fn stability(
+    cx: &mut Ctx,
+    tag: &str,
+    pristine: bool,
+    bytes: &[u8],
+    step: &mut dyn FnMut(&mut Ctx, &[u8]) -> Step,
+    witness: &dyn Fn() -> J,
+) -> Option<Fp> {
+    let (fp0, out0) = match step(cx, bytes) {
+        Step::Panic => {
+            cx.class(&format!("stable:{}:panic", tag));
+            return None;
+        }
+        Step::ParseErr(_) => {
+            cx.class(&format!("stable:{}:unparsable", tag));
+            return None;
+        }
+        Step::Parsed { fp, out } => (fp, out),
+    };
+    let b1 = match out0 {
+        Wr::Panic => {
+            cx.class(&format!("stable:{}:writer-panic", tag));
+            return Some(fp0);
+        }
+        Wr::Err(e) => {
+            if pristine && !matches!(e, WriteError::NotImplemented) {
+                cx.violation(
+                    "stab-write-refused",
+                    &format!("{}:{}", tag, werr(&e)),
+                    J::obj(vec![
+                        ("table", J::s(tag)),
+                        ("error", J::s(werr(&e))),
+                        ("input", trunc_hex(bytes)),
+                        ("source", witness()),
+                    ]),
+                );
+            } else {
+                cx.class(&format!("stable:{}:write-refused-{}", tag, werr(&e)));
+            }
+            return Some(fp0);
+        }
+        Wr::Ok(b) => b,
+    };
+    let (fp1, out1) = match step(cx, &b1) {
+        Step::Panic => {
+            cx.class(&format!("stable:{}:panic", tag));
+            return Some(fp0);
+        }
+        Step::ParseErr(e) => {
+            cx.violation(
+                "stab-reparse-error",
+                &format!("{}:{}", tag, e),
+                J::obj(vec![
+                    ("table", J::s(tag)),
+                    ("error", J::s(e)),
+                    ("pristine", J::Bool(pristine)),
+                    ("input", trunc_hex(bytes)),
+                    ("written", trunc_hex(&b1)),
+                    ("source", witness()),
+                ]),
+            );
+            return Some(fp0);
+        }
+        Step::Parsed { fp, out } => (fp, out),
+    };
+    if let Some((field, a, b)) = fp_diff(&fp0, &fp1) {
+        cx.violation(
+            "stab-value-differs",
+            &format!("{}:{}", tag, sig_field(&field)),
+            J::obj(vec![
+                ("table", J::s(tag)),
+                ("field", J::s(field)),
+                ("first_parse", J::s(a)),
+                ("re_parse", J::s(b)),
+                ("pristine", J::Bool(pristine)),
+                ("input", trunc_hex(bytes)),
+                ("written", trunc_hex(&b1)),
+                ("source", witness()),
+            ]),
+        );
+        return Some(fp0);
+    }
+    match out1 {
+        Wr::Panic => cx.class(&format!("stable:{}:writer-panic", tag)),
+        Wr::Err(e) => cx.violation(
+            "stab-rewrite-refused",
+            &format!("{}:{}", tag, werr(&e)),
+            J::obj(vec![
+                ("table", J::s(tag)),
+                ("error", J::s(werr(&e))),
+                ("written", trunc_hex(&b1)),
+                ("source", witness()),
+            ]),
+        ),
+        Wr::Ok(b2) => {
+            if b2 != b1 {
+                let at = b1.iter().zip(b2.iter()).position(|(x, y)| x != y).unwrap_or(b1.len().min(b2.len()));
+                cx.violation(
+                    "stab-bytes-differ",
+                    tag,
+                    J::obj(vec![
+                        ("table", J::s(tag)),
+                        ("first_difference_at", J::U(at as u64)),
+                        ("len1", J::U(b1.len() as u64)),
+                        ("len2", J::U(b2.len() as u64)),
+                        ("b1", trunc_hex(&b1)),
+                        ("b2", trunc_hex(&b2)),
+                        ("source", witness()),
+                    ]),
+                );
+            } else {
+                cx.class(&format!("stable:{}", tag));
+                cx.nontrivial(mix(hash_bytes(&b1), hash_str(tag)));
+            }
+        }
+    }
+    Some(fp0)
+}
+
+// ---------------------------------------------------------------------------------------------
+// Value generators shared by the sub-modules
+// ---------------------------------------------------------------------------------------------
+
+pub fn edge_u16(rng: &mut Rng) -> u16 {
+    match rng.below(8) {
+        0 => 0,
+        1 => 1,
+        2 => 0xFF,
+        3 => 0x100,
+        4 => 0x7FFF,
+        5 => 0x8000,
+        6 => 0xFFFF,
+        _ => rng.u16(),
+    }
+}
+
+pub fn edge_i16(rng: &mut Rng) -> i16 {
+    edge_u16(rng) as i16
+}
+
+pub fn edge_u32(rng: &mut Rng) -> u32 {
+    match rng.below(10) {
+        0 => 0,
+        1 => 0xFF,
+        2 => 0x100,
+        3 => 0xFFFF,
+        4 => 0x1_0000,
+        5 => 0xFF_FFFF,
+        6 => 0x100_0000,
+        7 => 0x7FFF_FFFF,
+        8 => 0xFFFF_FFFF,
+        _ => rng.u32(),
+    }
+}
+
+/// sizes near the 8/16-bit boundaries, mostly small
+pub fn edge_len(rng: &mut Rng, max: usize) -> usize {
+    let v = match rng.below(12) {
+        0 => 0,
+        1 => 1,
+        2 => 254,
+        3 => 255,
+        4 => 256,
+        5 => 257,
+        _ => rng.small(max.min(300)),
+    };
+    v.min(max)
+}
+
+// ---------------------------------------------------------------------------------------------
+
+pub struct C15 {
+    corpus: Option<stab::Corpus>,
+}
 
 impl C15 {
     pub fn new(_cx: &mut Ctx) -> C15 {
-        C15 {}
+        C15 { corpus: None }
+    }
+
+    fn corpus(&mut self, cx: &Ctx) -> &stab::Corpus {
+        if self.corpus.is_none() {
+            self.corpus = Some(stab::Corpus::load(cx.quick()));
+        }
+        self.corpus.as_ref().unwrap()
     }
 }
 
 impl Prop for C15 {
-    fn case(&mut self, cx: &mut Ctx, _rng: &mut Rng) {
-        cx.inconclusive("not-implemented");
+    fn exhaustive(&mut self, cx: &mut Ctx, shard: u64, of: u64) {
+        // finite sub-spaces: DICT integer operands around every encoding boundary, all operators,
+        // U24 boundaries, and every unfaulted fixture table once.
+        let mut rng = Rng::new(0xC15);
+        if shard == 0 {
+            cx.case_seed = 0xFFFF_1500;
+            cx.evals += 1;
+            cffm::exhaustive_operands(cx);
+            tt::exhaustive_prims(cx);
+        }
+        let n = self.corpus(cx).fonts.len();
+        for i in 0..n {
+            if i as u64 % of != shard {
+                continue;
+            }
+            let big = self.corpus.as_ref().map_or(0, |c| c.fonts[i].size) > 120_000;
+            if big && cx.quick() {
+                continue;
+            }
+            cx.case_seed = 0xFFFE_1500 + i as u64;
+            cx.evals += 1;
+            let corpus = self.corpus.as_ref().unwrap();
+            stab::all_tables(cx, &mut rng, corpus, i);
+        }
+    }
+
+    fn case(&mut self, cx: &mut Ctx, rng: &mut Rng) {
+        let mode = cx.mode.clone();
+        let pick = match mode.as_str() {
+            "value" => rng.below(70),
+            "stable" => 70 + rng.below(20),
+            "overflow" => 90 + rng.below(10),
+            _ => rng.below(100),
+        };
+        match pick {
+            0..=29 => tt::value_case(cx, rng),
+            30..=69 => cffm::value_case(cx, rng),
+            70..=89 => {
+                self.corpus(cx);
+                let corpus = self.corpus.as_ref().unwrap();
+                stab::case(cx, rng, corpus);
+            }
+            _ => {
+                if rng.chance(2, 3) {
+                    tt::overflow_case(cx, rng)
+                } else {
+                    cffm::overflow_case(cx, rng)
+                }
+            }
+        }
     }
 }
